@@ -2,6 +2,7 @@
 // Oracle: engine/ref_poseidon.hpp (textbook rounds on the library's C, M, P, S tables; u128 arithmetic).
 #include "../engine/pbt.hpp"
 #include "../engine/gen.hpp"
+#include "../engine/guard.hpp"
 #include "../engine/ref_poseidon.hpp"
 #include "goldilocks_base_field.hpp"
 #include "poseidon_goldilocks.hpp"
@@ -152,7 +153,10 @@ static bool body_linear_hash(const Case &c, Ctx &ctx)
     auto run = [&](int variant, const std::vector<uint64_t> &in1, const std::vector<uint64_t> &in2, uint64_t junk, std::string &why) -> bool {
         // exact-size input (san build: red zone right after; other builds: junk after the input, which must not influence the digest)
         uint64_t n = variant == 2 ? 2 * len : len;
-        Block in(n, 16), out(variant == 2 ? 8 : 4, 8);
+        // junk == 0: the input ends exactly at a guard page (a read past the declared length faults); otherwise junk follows the input
+        guard::Buf gin; Block inb(junk ? n : 0, 16), out(variant == 2 ? 8 : 4, 8);
+        struct { E *p; uint64_t guard; } in;
+        if (junk == 0) { gin.alloc(n * sizeof(E)); in.p = gin.as<E>(); in.guard = 0; } else { in.p = inb.p; in.guard = inb.guard; }
         for (uint64_t i = 0; i < len; i++) { in.p[i].fe = in1[i]; if (variant == 2) in.p[len + i].fe = in2[i]; }
         for (uint64_t i = n; i < n + in.guard; i++) in.p[i].fe = junk + i;
         if (variant == 0) PoseidonGoldilocks::linear_hash_seq(out.p, in.p, len);
@@ -168,9 +172,9 @@ static bool body_linear_hash(const Case &c, Ctx &ctx)
         return true;
     };
     std::string why;
-    for (int variant = 0; variant < 2; variant++) for (uint64_t junk : {0x1111000000000000ull, 0xEEEE000000000000ull}) if (!run(variant, x, y, junk, why)) return ctx.fail(why);
+    for (int variant = 0; variant < 2; variant++) for (uint64_t junk : {0x1111000000000000ull, 0xEEEE000000000000ull, 0ull}) if (!run(variant, x, y, junk, why)) return ctx.fail(why);
 #ifdef __AVX512__
-    for (uint64_t junk : {0x1111000000000000ull, 0xEEEE000000000000ull}) if (!run(2, x, y, junk, why)) return ctx.fail(why);
+    for (uint64_t junk : {0x1111000000000000ull, 0xEEEE000000000000ull, 0ull}) if (!run(2, x, y, junk, why)) return ctx.fail(why);
 #endif
     return true;
 }
@@ -203,7 +207,8 @@ static bool body_merkle(const Case &c, Ctx &ctx)
     ctx.cls(VN[variant]);
     ctx.nontrivial = nt;
     uint64_t rowlen = cols * dim;
-    Block in(rows * rowlen, 0);
+    guard::Buf gin(rows * rowlen * sizeof(E)); // the input matrix ends exactly at a guard page
+    struct { E *p; } in; in.p = gin.as<E>();
     std::vector<uint64_t> x(rows * rowlen);
     for (uint64_t i = 0; i < x.size(); i++) { x[i] = hashed_elem(seed, i); in.p[i].fe = x[i]; }
     uint64_t nel = MerklehashGoldilocks::getTreeNumElements(rows);
@@ -283,7 +288,12 @@ int main(int argc, char **argv)
                                          [](const std::pair<std::vector<uint64_t>, int> &p) { return p.first; }); }, body_perm, 3, false, desc_perm, 100});
     props.push_back({"c06.backsolved", [] { return rc::gen::apply([](std::vector<uint64_t> v, std::vector<g::P2> small, uint64_t flags) {
                          // half of the cases: make products x_t * P[t][k] (k = flags-chosen output) small residues (< 2^32) for several t: raw lane products then tend to be non-canonical
-                         if ((flags >> 12) & 1) { namespace K = PoseidonGoldilocksConstants; int k = (flags >> 16) % 12; for (int t = 0; t < 12; t++) if ((flags >> (20 + t)) & 1) { uint64_t coef = ((flags % 4) == 3) ? K::P[t][k].fe : K::M[t][k].fe; v[t] = ref::mul(small[t].first & 0xFFFFFFFFull, ref::inv(coef % PR ? coef : 1)); } }
+                         // a quarter of the cases: x_t = floor((k*2^64 - d) / m) for a small matrix entry m of M (k <= m): the 72-bit product x_t*m then has a low word
+                         // within d of 2^64 (non-canonical / > 0xFFFFFFFF00000000 low parts, several in the same output lane when several t are crafted)
+                         if (((flags >> 12) & 3) == 2) { namespace K = PoseidonGoldilocksConstants; int kk = (flags >> 16) % 12;
+                             for (int t = 0; t < 12; t++) if ((flags >> (20 + t)) & 1) { uint64_t m = K::M[t][kk].fe % PR; if (m == 0 || m > 255) continue; uint64_t mult = 1 + (small[t].second % m);
+                                 unsigned __int128 target = ((unsigned __int128)mult << 64) - 1 - (small[t].first % 64); v[t] = (uint64_t)(target / m) % PR; } }
+                         else if ((flags >> 12) & 1) { namespace K = PoseidonGoldilocksConstants; int k = (flags >> 16) % 12; for (int t = 0; t < 12; t++) if ((flags >> (20 + t)) & 1) { uint64_t coef = ((flags % 4) == 3) ? K::P[t][k].fe : K::M[t][k].fe; v[t] = ref::mul(small[t].first & 0xFFFFFFFFull, ref::inv(coef % PR ? coef : 1)); } }
                          v.push_back(flags); return v; }, g::fe_vec(24), rc::gen::container<std::vector<g::P2>>(12, g::pair_hilo()), g::uni64()); }, body_backsolved, 2, false, desc_perm, 100});
     { pbt::PropDef p{"c06.kat", [] { return rc::gen::just(std::vector<uint64_t>{0}); }, body_kat, 0, false, nullptr, 100};
       p.enum_count = [] { return (uint64_t)2; }; p.enum_at = [](uint64_t i) { return std::vector<uint64_t>{i}; }; props.push_back(p); }
